@@ -12,7 +12,7 @@ MANIFEST = dict(
     technique="Lean 4 proof (case analysis over an inductive closure of emitters; composition with the C17 codec theorem) + differential correspondence run over introspected emitters",
     design="5/C02",
 )
-GEN: list = []
+GEN = ["Methods"]
 THEOREMS = [
     "c02_emit_valid",
     "c02_parse_emit",
@@ -21,6 +21,23 @@ THEOREMS = [
     "c02_wire_roundtrip",
     "c02_wire_single_line",
     "c02_constructor_errors",
+    # extension: notification layer, error classes, client-side answers (Gen/Methods.lean is regenerated)
+    "c02_methods_translated",
+    "c02_method_tables_consistent",
+    "c02_notification_senders_built",
+    "c02_notification_delivered",
+    "c02_handler_guard",
+    "c02_notification_handler_dispatch",
+    "c02_register_defaults",
+    "c02_kind_predicates",
+    "c02_exception_error_objects",
+    "c02_roots_list_response",
+    "c02_sampling_result",
+    "c02_completion_truncation",
+    "c02_complete_enum",
+    "c02_roots_manager_notifications",
+    "c02_to_specific_type",
+    "c02_parse_batch_legacy_items",
 ]
 RULE = (
     "emitters enumerated by introspection of the package at run time (create_* constructors, JSONRPCMessage.create_* class "
@@ -126,6 +143,18 @@ def has_nested_null(case):
     return any(_nested_null(a.get(k)) for k in ("params", "result", "data", "payload"))
 
 
+def inspect_params(name):
+    """parameter names of a typed helper (to aim wrong-typed arguments at the ones it validates)"""
+    import importlib
+    import inspect
+    try:
+        modname, fn = name.rsplit(".", 1)
+        f = getattr(importlib.import_module("chuk_mcp.protocol.messages." + modname), fn)
+        return set(inspect.signature(f).parameters)
+    except Exception:  # noqa: BLE001
+        return set()
+
+
 def _case(emitter, **args):
     return {"emitter": emitter, "args": args}
 
@@ -211,6 +240,9 @@ def gen_cases(ctx, budget, names):
                     if not is_note:
                         a["id"] = pick_id()
                     out.append(_case(name, **a))
+                if short == "create_request":
+                    for p in [None, {"o": []}, TWINS]:
+                        out.append(_case(name, method=pick_text(), params=p, id=None))  # the library picks a uuid
                 for t in HOSTILE + texts[-8:]:
                     a = dict(method=t, params=rng.choice([None, TWINS]))
                     if not is_note:
@@ -247,6 +279,10 @@ def gen_cases(ctx, budget, names):
             for k, opt in enumerate((False, True)):
                 for j, t in enumerate(TEXTS):
                     out.append(_case(name, opt=opt, text=t, payload=SPECIAL_PAYLOADS[(k * len(TEXTS) + j) % len(SPECIAL_PAYLOADS)], id=pick_id()))
+            pn = inspect_params(name)
+            for bad in ("name", "arguments"):
+                if bad in pn:
+                    out.append(_case(name, text=pick_text(), payload=TWINS, badtype=bad))
             for t in rng.sample(HOSTILE + texts[-8:], 6 if quick else len(HOSTILE) + 8):
                 out.append(_case(name, opt=True, text=t, payload=TWINS, id=rng.choice(magic_ids + [{"i": 0}, J.S("")]), timeout0=rng.random() < 0.5))
             for _ in range(10 if quick else 60):
@@ -300,6 +336,20 @@ def gen_cases(ctx, budget, names):
                 if short == "handle_message":
                     for _ in range(100 if quick else 600):
                         out.append(_case(name, scenario="custom-result", id=pick_id(), method=J.cps("x/custom"), payload=J.rand_value(rng, 4, 0.0)))
+        elif fam == "answer":
+            short_ = name.split(".")[-1]
+            if short_ in ("handle_roots_list_request",):
+                for i in ids:
+                    for rs in ([], [[J.cps("file:///a"), None]], [[J.cps("file:///a"), J.S("")], [J.cps("file:///é"), J.S("n")]]):
+                        out.append(_case(name, op="handle_roots_list_request", id=i, roots=rs))
+            else:
+                step = {"handle_list_request": ["list", rng.choice(ids)], "add_root": ["add", J.cps("file:///b"), J.S("b")],
+                        "remove_root": ["remove", J.cps("file:///a")], "clear": ["clear"], "get_roots": ["list", {"i": 1}]}.get(short_)
+                if step is None:
+                    out.append(_case(name, unknown_method=True))
+                    continue
+                for i in ids[:4]:
+                    out.append(_case(name, op="manager", steps=[["add", J.cps("file:///a"), None], step, ["list", i]], stream=True))
         elif fam == "convert":
             for of in ("request", "notification", "response", "error"):
                 for i in ids:
@@ -842,7 +892,7 @@ def model_line_for(case, o):
             r = a.get("result")
             return {**base, "ctor": "legacy_create_response", "id": a.get("id"), "result": r if isinstance(r, dict) and "o" in r else None}
         return ctor_line(sh, "legacy" in inner, False, a)
-    if fam == "seq" or (fam == "send_message" and a.get("cancel") is not None):
+    if fam == "answer" or fam == "seq" or (fam == "send_message" and a.get("cancel") is not None):
         return None  # several messages on shared objects: property oracle only
     if fam == "convert":
         of = a.get("of", "request")
@@ -941,11 +991,14 @@ _suites = [Emitters(), EmittersFallback(), EmittersFallbackStdlibJson()]
 
 
 def suites():
-    return _suites
+    from . import c02_ext
+    return _suites + c02_ext.suites()
 
 
 def extra(ctx, tier):
     """make literals the harness could not evaluate visible in the evidence"""
+    from . import c02_ext
+    c02_ext.extra(ctx, tier)
     for su in _suites:
         for em, why in sorted(su.skipped.items()):
             ctx.notes.append(f"NOTE {su.name}: {em} not exercised: {why}")
